@@ -58,6 +58,8 @@ func genCase(r *h.Run, phase string, idx int) caseT {
 	c.Cfg.Mode = modes[(idx/2)%3]
 	c.Cfg.NPoller = 1 + rng.Intn(3)
 	c.Cfg.MaxWB = 64 << 10
+	// asynchronous reading (ET and ONESHOT): the end of the stream is met by a reading job
+	c.Cfg.Async = c.Cfg.Mode != "LT" && (idx/6)%2 == 1
 	c.Delay = rng.Intn(2) == 0
 	c.Shim = phase == "shim"
 	n := 4 + rng.Intn(12)
@@ -134,7 +136,12 @@ func isPeerClass(err error) bool {
 	return false
 }
 
-func sigFor(c caseT, s string) string { return fmt.Sprintf("c03:%s:%s", c.Cfg.Mode, s) }
+func sigFor(c caseT, s string) string {
+	if c.Cfg.Async {
+		return fmt.Sprintf("c03:%s-async:%s", c.Cfg.Mode, s)
+	}
+	return fmt.Sprintf("c03:%s:%s", c.Cfg.Mode, s)
+}
 
 func runCase(r *h.Run, c caseT) {
 	r.Eval(1)
@@ -648,6 +655,120 @@ func runCase(r *h.Run, c caseT) {
 			} else {
 				pc.Close()
 			}
+		}
+	}
+
+	// ---- a dialed UDP connection: one datagram is exchanged with a plain echo socket (the poller
+	// has read from it), then it is ended by one cause: exactly one close notification with that cause
+	if rng.Intn(2) == 0 {
+		if pcn, e := net.ListenPacket("udp", "127.0.0.1:0"); e == nil {
+			go func() {
+				b := make([]byte, 2048)
+				for {
+					n, a, err := pcn.ReadFrom(b)
+					if err != nil {
+						return
+					}
+					_, _ = pcn.WriteTo(b[:n], a)
+				}
+			}()
+			defer pcn.Close()
+			dialed := make(chan *nbio.Conn, 1)
+			got := make(chan struct{}, 4)
+			var ucn atomic.Value
+			prevData := env.OnData
+			env.OnData = func(cn *nbio.Conn, b []byte) {
+				atomic.AddInt64(&progress, 1)
+				if x, _ := ucn.Load().(*nbio.Conn); x == cn {
+					select {
+					case got <- struct{}{}:
+					default:
+					}
+				}
+			}
+			derr := env.G.DialAsync("udp", pcn.LocalAddr().String(), func(cn *nbio.Conn, err error) {
+				if err == nil {
+					ucn.Store(cn)
+					dialed <- cn
+				} else {
+					dialed <- nil
+				}
+			})
+			var cn *nbio.Conn
+			if derr == nil {
+				select {
+				case cn = <-dialed:
+				case <-time.After(5 * time.Second):
+				}
+			}
+			echoed := false
+			if cn != nil {
+				_, _ = cn.Write([]byte("ping"))
+				select {
+				case <-got:
+					echoed = true
+				case <-time.After(2 * time.Second):
+				}
+			}
+			if cn != nil && echoed {
+				errMine := errors.New("c03: the owner of the udp connection says goodbye")
+				cause := []string{"close", "close-error", "deadline"}[rng.Intn(3)]
+				var want error
+				switch cause {
+				case "close":
+					_ = cn.Close()
+				case "close-error":
+					want = errMine
+					_ = cn.CloseWithError(errMine)
+				case "deadline":
+					want = nbio.ErrReadTimeout
+					_ = cn.SetReadDeadline(time.Now().Add(30 * time.Millisecond))
+				}
+				// decided at quiescence
+				stable := 0
+				lastCPU := h.CPUTime()
+				lastEv := int64(-1)
+				for stable < 60 {
+					if len(env.Closes(cn)) > 0 {
+						break
+					}
+					ev := atomic.LoadInt64(&progress)
+					cpu := h.CPUTime()
+					if ev == lastEv && cpu-lastCPU < 3*time.Millisecond {
+						stable++
+					} else {
+						stable = 0
+					}
+					lastEv, lastCPU = ev, cpu
+					time.Sleep(50 * time.Millisecond)
+				}
+				time.Sleep(5 * time.Millisecond)
+				ce := env.Closes(cn)
+				w.mu.Lock()
+				if cr := w.conns[cn]; cr != nil {
+					cr.plan = connPlan{Origin: "dial", Scenario: "udp-" + cause}
+					cr.appClosed = cause != "deadline"
+				}
+				w.mu.Unlock()
+				switch {
+				case len(ce) == 0:
+					viol("udp-dialed:"+cause+":no-close-notification", fmt.Sprintf("a dialed UDP connection (one datagram exchanged) ended by %s got no close notification; stable for 3 s with idle CPU", cause))
+					return
+				case len(ce) > 1:
+					viol("udp-dialed:"+cause+":close-notification-count", fmt.Sprintf("%d close notifications: %v", len(ce), ce))
+					return
+				case (want == nil && ce[0] != nil) || (want != nil && !errors.Is(ce[0], want)):
+					viol("udp-dialed:"+cause+":wrong-close-error", fmt.Sprintf("a dialed UDP connection (one datagram exchanged) was ended by %s only, the notification reports %v (expected %v)", cause, ce[0], want))
+					return
+				}
+				r.Seen("udp_dialed", cause)
+			} else {
+				r.Count("udp_dialed_setup_failed", 1)
+				if cn != nil {
+					_ = cn.Close()
+				}
+			}
+			env.OnData = prevData
 		}
 	}
 
